@@ -221,3 +221,53 @@ S("c10-benign-renamed-both", "C10",
   (VR, "        idxs_original = pd.Categorical(x, categories=self.levels).codes\n        idxs_modified = np.copy(idxs_original)\n        idxs_modified[idxs_original == -1] = 0\n        contribution = self.contrast_matrix.matrix[idxs_modified]\n        contribution[idxs_original == -1] = 0",
    "        codes = pd.Categorical(x, categories=self.levels).codes\n        patched = np.copy(codes)\n        patched[codes == -1] = 0\n        contribution = self.contrast_matrix.matrix[patched]\n        contribution[codes == -1] = 0"))
 S("c10-benign-message", "C10", (CF, '"\'{key}\' is not a valid configuration option"', '"\'{key}\' is not a configuration option"'))
+
+# ------------------------------------------------------------------ C12
+B("c12-slash-floordiv", "C12", "R12.2", (CR, '"SLASH": operator.truediv,', '"SLASH": operator.floordiv,'))
+B("c12-symbol-sub-plus", "C12", "R12.2", (CR, '        "sub": "-",', '        "sub": "+",'))
+B("c12-le-lt-swapped", "C12", "R12.2", (CR, '"LESS_EQUAL": operator.le,\n        "LESS": operator.lt,', '"LESS_EQUAL": operator.lt,\n        "LESS": operator.le,'))
+B("c12-operands-swapped", "C12", "R12.2", (CR, "return LazyOperator(op, expr.left.accept(self), expr.right.accept(self))", "return LazyOperator(op, expr.right.accept(self), expr.left.accept(self))"))
+B("c12-unary-neg-pos", "C12", "R12.2", (CR, 'UNARY_OPERATORS = {"PLUS": operator.pos, "MINUS": operator.neg}', 'UNARY_OPERATORS = {"PLUS": operator.neg, "MINUS": operator.pos}'))
+B("c12-mult-above-add-broken", "C12", "R12.1", (P, 'while self.match(["MINUS", "PLUS"]):', 'while self.match(["MINUS", "PLUS", "STAR"]):'), note="also C01")
+B("c12-kwargs-wrong-key", "C12", "R12.3", (CR, "                kwargs[arg.name.name.lexeme] = arg.value.accept(self)", "                kwargs[arg.value.accept(self)] = arg.value.accept(self)"))
+B("c12-kwargs-dropped-at-eval", "C12", "R12.3", (CR, "        return callee(*args, **kwargs)", "        return callee(*args)"))
+B("c12-args-reversed", "C12", "R12.3", (CR, "        args = [arg.eval(data_mask, env) for arg in self.args]", "        args = [arg.eval(data_mask, env) for arg in reversed(self.args)]"))
+B("c12-I-not-identity", "C12", "R12.4", (TR, "    >>> {(x + y) / z}\n    \"\"\"\n    return x", "    >>> {(x + y) / z}\n    \"\"\"\n    return x * 1"))
+B("c12-brace-builds-other-call", "C12", "R12.4", (P, 'return Call(Variable(Token("IDENTIFIER", "I")), [expr])', 'return Call(Variable(Token("IDENTIFIER", "C")), [expr])'))
+B("c12-string-keeps-quotes", "C12", "R12.5", (SC, "        value = self.code[self.start + 1 : self.current - 1]", "        value = self.code[self.start : self.current]"))
+B("c12-int-as-float", "C12", "R12.5", (SC, "            token = int(self.code[self.start : self.current])", "            token = float(self.code[self.start : self.current])"))
+B("c12-kwargs-not-printed", "C12", "R12.6", (CR, "        return f\"{self.callee}({', '.join(args + kwargs)})\"", "        return f\"{self.callee}({', '.join(args)})\""))
+B("c12-lexeme-dropped", "C12", "R12.5", (CR, "        return LazyValue(expr.value, expr.lexeme)", "        return LazyValue(expr.value, None)"))
+S("c12-benign-dict-reordered", "C12", (CR, '        "PLUS": operator.add,\n        "MINUS": operator.sub,', '        "MINUS": operator.sub,\n        "PLUS": operator.add,'))
+
+# ------------------------------------------------------------------ C06
+B("c06-center-flag-not-set", "C06", "R6.1", (TR, "            self.mean = np.mean(x)\n            self.params_set = True\n        return x - self.mean", "            self.mean = np.mean(x)\n        return x - self.mean"))
+B("c06-scale-guard-deleted", "C06", "R6.1", (TR, "        if not self.params_set:\n            self.mean = np.mean(x)\n            self.std = np.std(x)\n            self.params_set = True\n", "        self.mean = np.mean(x)\n        self.std = np.std(x)\n"))
+B("c06-bspline-recomputes-knots", "C06", "R6.1", (TR, "    def eval(self, x):\n        n_bases = len(self._knots) - (self._degree + 1)", "    def eval(self, x):\n        self._knots = np.sort(np.concatenate(([np.min(x), np.max(x)] * (self._degree + 1), self._knots[self._degree + 1:-(self._degree + 1)])))\n        n_bases = len(self._knots) - (self._degree + 1)"))
+B("c06-bspline-flag-not-set", "C06", "R6.1", (TR, "        self._knots = all_knots\n        self.params_set = True", "        self._knots = all_knots"))
+B("c06-poly-memo-test-removed", "C06", "R6.1", (TR, "            if k not in self.alpha:\n                self.alpha[k] = np.sum(x * P[:, k] ** 2) / np.sum(P[:, k] ** 2)", "            self.alpha[k] = np.sum(x * P[:, k] ** 2) / np.sum(P[:, k] ** 2)"))
+B("c06-flag-reopened", "C06", "R6.1", (TR, "        return (x - self.mean) / self.std", "        self.params_set = False\n        return (x - self.mean) / self.std"))
+B("c06-class-level-memo", "C06", "R6.1", (TR, '    __transform_name__ = "poly"\n', '    __transform_name__ = "poly"\n    alpha = {}\n'), note="also C07 R7.3")
+B("c06-center-mean-outside-guard", "C06", "R6.2", (TR, "        return x - self.mean", "        return x - np.mean(x)"))
+B("c06-numeric-new-data-unique", "C06", "R6.2", (VR, "    def eval_new_data_numeric(self, x):\n        return np.asarray(x)", "    def eval_new_data_numeric(self, x):\n        return np.asarray(x) - np.asarray(x).min()"))
+B("c06-categorical-without-categories", "C06", "R6.2", (CL, "            idxs = pd.Categorical(x, categories=self.levels).codes\n            return self.contrast_matrix.matrix[idxs]", "            idxs = pd.Categorical(x).codes\n            return self.contrast_matrix.matrix[idxs]"))
+B("c06-recode-at-prediction", "C06", "R6.3", (VR, "        if not difference:\n            idxs = pd.Categorical(x, categories=self.levels).codes", "        if not difference:\n            self.contrast_matrix = Treatment().code_with_intercept(self.levels) if self.spans_intercept else self.contrast_matrix\n            idxs = pd.Categorical(x, categories=self.levels).codes"))
+B("c06-set-data-at-prediction", "C06", "R6.3", (TT, "        if self.kind == \"interaction\":\n            result = reduce(\n                get_interaction_matrix, [c.eval_new_data(data) for c in self.components]\n            )", "        if self.kind == \"interaction\":\n            self.set_data(self.spans_intercept)\n            result = reduce(\n                get_interaction_matrix, [c.eval_new_data(data) for c in self.components]\n            )"))
+B("c06-deepcopy-dropped-truediv", "C06", "R6.4", (TT, "            return Model(self, Term(*deepcopy(self.components), *deepcopy(other.components)))", "            return Model(self, Term(*self.components, *deepcopy(other.components)))"))
+B("c06-deepcopy-dropped-matmul-model", "C06", "R6.4", (TT, "        if isinstance(other, type(self)):\n            products = product(self.common_terms, other.common_terms)\n            iterms = [\n                Term(*deepcopy(p[0].components), *deepcopy(p[1].components)) for p in products\n            ]\n            return Model(*iterms)", "        if isinstance(other, type(self)):\n            products = product(self.common_terms, other.common_terms)\n            iterms = [\n                Term(*p[0].components, *deepcopy(p[1].components)) for p in products\n            ]\n            return Model(*iterms)"))
+B("c06-deepcopy-dropped-pow", "C06", "R6.4", (TT, "Term(*[deepcopy(comp) for term in terms for comp in term.components])", "Term(*[comp for term in terms for comp in term.components])"))
+B("c06-deepcopy-dropped-or", "C06", "R6.4", (TT, "            terms = [GroupSpecificTerm(deepcopy(p[0]), p[1]) for p in products]", "            terms = [GroupSpecificTerm(p[0], p[1]) for p in products]"))
+B("c06-extra-term-not-copied", "C06", "R6.4", (TT, "    extra_term = Term(*deepcopy(components))", "    extra_term = Term(*components)"))
+B("c06-prediction-reversed-components", "C06", "R6.5", (TT, "                get_interaction_matrix, [c.eval_new_data(data) for c in self.components]", "                get_interaction_matrix, [c.eval_new_data(data) for c in reversed(self.components)]"))
+B("c06-khatri-rao-swapped-prediction", "C06", "R6.5", (TT, "        Zi = linalg.khatri_rao(Ji.T, Xi.T).T", "        Zi = linalg.khatri_rao(Xi.T, Ji.T).T"))
+B("c06-transform-recreated", "C06", "R6.5", (CR, "            and self.stateful_transform is None\n        ):", "        ):"))
+B("c06-offset-returns-training", "C06", "R6.6", (CL, "            offset = self.call.eval(data_mask, self.env)  # returns instance of Offset\n            values = offset.eval()", "            values = self._intermediate_data.eval()"))
+B("c06-proportion-returns-training-trials", "C06", "R6.6", (CL, "            name = self.call.args[1].name\n            values = data_mask[name]", "            values = self._intermediate_data.trials"))
+B("c06-term-returns-cached", "C06", "R6.6", (TT, "            result = self.components[0].eval_new_data(data)\n        return result", "            result = self.components[0].value\n        return result"))
+S("c06-benign-flag-renamed", "C06", (TR, "    def __init__(self):\n        self.params_set = False\n        self.mean = None\n\n    def __call__(self, x):\n        if not self.params_set:\n            self.mean = np.mean(x)\n            self.params_set = True\n        return x - self.mean",
+                                     "    def __init__(self):\n        self.fitted = False\n        self.mean = None\n\n    def __call__(self, x):\n        if not self.fitted:\n            self.mean = np.mean(x)\n            self.fitted = True\n        return x - self.mean"))
+S("c06-benign-copy-deepcopy", "C06", (TT, "    extra_term = Term(*deepcopy(components))", "    extra_term = Term(*deepcopy(list(components)))"), note="copied source with list() wrapper")
+VARIANTS.pop()
+S("c06-benign-locals-renamed", "C06", (CL, "        new_data_levels = set(x)\n        original_levels = set(self.levels)\n        difference = new_data_levels - original_levels", "        seen_now = set(x)\n        seen_before = set(self.levels)\n        difference = seen_now - seen_before"))
+S("c06-benign-none-guard", "C06", (TR, "    def __init__(self):\n        self.params_set = False\n        self.mean = None\n\n    def __call__(self, x):\n        if not self.params_set:\n            self.mean = np.mean(x)\n            self.params_set = True\n        return x - self.mean",
+                                   "    def __init__(self):\n        self.mean = None\n\n    def __call__(self, x):\n        if self.mean is None:\n            self.mean = np.mean(x)\n        return x - self.mean"))
